@@ -72,6 +72,14 @@ void verif_assume_fail(const char *what, const char *file, int line)
 
 void verif_stop(const char *why) { finish(why, nfailed ? 10 : 0); }
 
+/* harness objects registered for same_object queries are few: the start-up input */
+extern struct ghost_peek { int dummy; } verif_unused;
+bool verif_same_object(const void *a, const void *b)
+{
+  /* native approximation: within 1 MiB above b (harness buffers are small) */
+  return (const char *) a >= (const char *) b && (const char *) a <= (const char *) b + (1 << 20);
+}
+
 void verif_fill(void *p, size_t n) { memset(p, 0x5a, n); }
 
 int main(void)
